@@ -1,4 +1,5 @@
 import WV.Model.C07
+import WV.Proofs.C07_Connect
 
 /-! `_ThereCanBeOnlyOne` fires its summary Deferred at most once: `firedCount` (history variable,
 incremented at every `callback`/`errback` of `_winner_d`) is 1 if `_fired` and 0 otherwise, in
@@ -115,7 +116,8 @@ theorem attach_FOK (w : World) (k : Nat) (h : FOK w) : FOK (attach w k) := by
     · exact h.of_eq rfl rfl
 
 theorem evConnect_FOK {w w' : World} (h : FOK w) (he : evConnect w = some w') : FOK w' := by
-  unfold evConnect at he
+  rw [evConnect_eq] at he
+  unfold evConnectHead at he
   split at he
   · cases he
   · simp only [] at he
